@@ -50,6 +50,24 @@ def step (st : St) (n : Nat) (line : String) : St × List Verdict :=
         (if (mres == .dead) != (k == 0) then [.mismatch "model verdict differs"] else [])
       -- the session and association of this round are gone (dead peer) or were deleted by the harness: rebuild the world lazily
       (st, o fs ++ mm)
+    | "assocseries" =>
+      -- the agent's own Association Setup Request towards a configured peer
+      let N := getNat j "N"; let rt := getNat j "rt_us"; let k := getNat j "answer"; let kind := getStr j "kind"
+      let tx := txList obs "tx"
+      let evs : List Retry.Ev := if k = 0 then List.replicate (N + 1) .timeout else List.replicate (k - 1) .timeout ++ [.resp 1]
+      let (mtx, _) := Retry.send 1 N evs
+      let want := if k = 0 then N + 1 else k
+      let sameSeq := tx.all fun e => some e.2 = tx.head?.map (·.2)
+      let fs : List String :=
+        (if !getBool obs "alive" then ["agent died during its own association setup"] else []) ++
+        (if tx.isEmpty then ["the agent sent no Association Setup Request to its configured peer"] else []) ++
+        (if tx.length > N + 1 then [s!"{tx.length} transmissions of the Association Setup Request with max_req_retries {N}"] else []) ++
+        (if !tx.isEmpty ∧ tx.length != want then [s!"Association Setup Request: {tx.length} transmissions, expected {want} (a response with its sequence number — {kind} — arrived at transmission {k}; 0 = never)"] else []) ++
+        (if !sameSeq then ["retransmissions of the Association Setup Request do not carry the same sequence number"] else []) ++
+        (match gapsOK rt tx with | some m => [m] | none => []) ++
+        (if kind = "accept" ∧ k != 0 ∧ !getBool obs "served" then ["the association the peer accepted is not served"] else [])
+      let mm : List Verdict := if !tx.isEmpty ∧ mtx != tx.length then [.mismatch s!"model: {mtx} transmissions"] else []
+      (st, o fs ++ mm)
     | "hbdup" =>
       let tx := txList obs "tx"
       let fs : List String :=
